@@ -83,7 +83,7 @@ PRES = ["list", "list", "list", "array", "dict-str", "dict-int", "names", "names
 def small_cases(draw):
     case = draw(cases.partition_cases(algs=ALGS, oracle=True, max_bins=6, presentations=PRES,
                                       profiles=["tiny", "small", "small", "medium", "medium", "large", "two-valued", "one-dominant",
-                                                "planted", "arithmetic", "all-equal"]))
+                                                "planted", "arithmetic", "all-equal", "near-equal-large", "mirrored"]))
     if case["alg"] == "multifit":
         case["opts"] = {"iterations": draw(st.sampled_from([0, 1, 1, 2, 2, 3, 4, 5, 8, 10, 12]))}
     return case
